@@ -299,7 +299,7 @@ def build(spec, model=None, **kw):
 
 def _build(spec, model=None, holder=None, order_seed=None, codes=None, ckey_map=None, solve=True, ext_first=None,
           max_iter=3000, unused_ext=False, tol=None, order_perm=None, codes_after_first_country=False,
-           query_zone=False, interleave_model=False, region_default_currency=False):
+           query_zone=False, interleave_model=False, region_default_currency=False, run_via_steps=False):
     """Build (and solve) the model described by spec with the REAL classes.
 
     order_seed: None = canonical declaration order; int = a random linear extension per country.
@@ -578,14 +578,19 @@ def _build(spec, model=None, holder=None, order_seed=None, codes=None, ckey_map=
     if tol is not None:
         mod.EquationSolver.ParameterErrorTolerance = tol
     if solve and own_model:
-        run_main(b)
+        run_main(b, via_steps=run_via_steps)
     return b
 
 
-def run_main(b):
+def run_main(b, via_steps=False):
     try:
         with contextlib.redirect_stdout(io.StringIO()):
-            b.model.main()
+            if via_steps:
+                # the alternative public route: the step list the GUI works through, run to the end
+                b.model._GetSteps()
+                b.model._RunAllSteps()
+            else:
+                b.model.main()
         b.V = b.model.EquationSolver.TimeSeries
     except Exception as e:
         b.error = e
